@@ -40,6 +40,7 @@ pub fn run(opts: &Opts) -> Run {
             // (a) documented loop with UptoBytes(n) + collect
             for n in [1usize, 4096, 1 << 20] {
                 run.oracle_checks += 1;
+                crate::util::watchdog::beat(None);
                 let base = alloc_count::start();
                 let mut max_buffered = 0usize;
                 let r = guarded(|| {
@@ -84,6 +85,7 @@ pub fn run(opts: &Opts) -> Run {
             // (b) StreamingDecoder with a small and a large read buffer
             for n in [100usize, 65536] {
                 run.oracle_checks += 1;
+                crate::util::watchdog::beat(None);
                 let base = alloc_count::start();
                 let r = guarded(|| {
                     let mut s = StreamingDecoder::new(&frame[..]).map_err(|e| format!("{:?}", e))?;
